@@ -1,3 +1,135 @@
-/- Property theorems for C18 — to be filled in. -/
+/-
+  C18 — Persistent signals are never lost; a suspended stage resumes once per signal.
+
+  One-step theorems about the engine model (`hSignalStage`, the suspend branch of `processResult`), valid in ANY
+  state — i.e. wherever in the schedule the signal arrives — plus "a SUSPENDED stage stays SUSPENDED under every
+  message except its own signal, its own cancel and a jump re-arm".  The run-level count "resumes = effective
+  signals" is checked by the harness monitor on every schedule (harness/engine_suites.py `mon_c18`); the race
+  signal-vs-suspending-result at statement level is C07's CAS + retry (both handlers re-read and re-apply).
+-/
+import Stab.Lemmas.EngineGood
+
 namespace Stab.Props.C18
+open Stab Stab.Engine
+
+/-- A signal handled while the stage is SUSPENDED resumes it: stage and the suspended task go back to RUNNING and
+    exactly one RunTask is pushed, all in one commit together with the processed mark. -/
+theorem signal_resumes_suspended (c : Cfg) (s : State) (id i t : Nat) (p : Bool)
+    (hs : (s.stage i).status = .suspended)
+    (ht : (List.range (s.stage i).tasks.length).find? (fun t => ((s.stage i).tasks.getD t default).status == .suspended) = some t) :
+    hSignalStage c s id i p =
+      [[.setStage i { s.stage i with status := .running,
+                                     tasks := setTask (s.stage i).tasks t (fun x => { x with status := .running }) },
+        .mark id, .push (.runTask i t)]] := by
+  simp only [List.getD_eq_getElem?_getD] at ht
+  simp [hSignalStage, hs, ht]
+
+/-- A PERSISTENT signal handled while the stage is not SUSPENDED (not started yet, running, …) is buffered:
+    the mailbox grows by one, nothing else changes. -/
+theorem persistent_signal_is_buffered (c : Cfg) (s : State) (id i : Nat) (hs : (s.stage i).status ≠ .suspended) :
+    hSignalStage c s id i true = [[.setStage i { s.stage i with buffered := (s.stage i).buffered + 1 }, .mark id]] := by
+  simp [hSignalStage, hs]
+
+/-- A TRANSIENT signal handled while the stage is not SUSPENDED has no effect (only the processed mark). -/
+theorem transient_signal_is_dropped (c : Cfg) (s : State) (id i : Nat) (hs : (s.stage i).status ≠ .suspended) :
+    hSignalStage c s id i false = [[.mark id]] := by
+  simp [hSignalStage, hs]
+
+/-- When the task asks to suspend and a signal is buffered, exactly ONE buffered signal is consumed, the stage
+    stays RUNNING and the task is re-run once — in the same commit (no lost-signal window). -/
+theorem suspend_consumes_one_buffered_signal (c : Cfg) (st : StageSt) (id i t n : Nat)
+    (hs : st.status = .running) (ht : (st.tasks.getD t default).status = .running) (hb : 0 < st.buffered) :
+    processResult c st id i t n .suspend =
+      [[.setStage i { st with buffered := st.buffered - 1, status := .running,
+                              tasks := setTask st.tasks t (fun x => { x with status := .running }) },
+        .mark id, .push (.runTask i t)]] := by
+  have : ¬ (st.buffered = 0) := Nat.ne_of_gt hb
+  simp only [List.getD_eq_getElem?_getD] at ht
+  simp [processResult, hs, ht, hb]
+
+/-- … and with an empty mailbox the stage and the task become SUSPENDED durably and NO continuation is pushed. -/
+theorem suspend_without_signal_waits (c : Cfg) (st : StageSt) (id i t n : Nat)
+    (hs : st.status = .running) (ht : (st.tasks.getD t default).status = .running) (hb : st.buffered = 0) :
+    processResult c st id i t n .suspend =
+      [[.setStage i { st with status := .suspended, tasks := setTask st.tasks t (fun x => { x with status := .suspended }) },
+        .mark id]] := by
+  simp only [List.getD_eq_getElem?_getD] at ht
+  simp [processResult, hs, ht, hb]
+
+/-- the only effects of a handler that could move stage `i` away from SUSPENDED -/
+def KeepsSuspended (s : State) (i : Nat) (e : Eff) : Prop :=
+  ∀ new, e = .setStage i new → (s.stage i).status = .suspended → new.status = .suspended
+
+/-- **A SUSPENDED stage stays SUSPENDED**: no message other than its own SignalStage, its own CancelStage or a
+    JumpToStage (re-arm) writes another status to it — whatever else is delivered, in whatever order. -/
+theorem suspended_stays_suspended (c : Cfg) (s : State) (row : Row) (i : Nat)
+    (h1 : ∀ p, row.msg ≠ .signalStage i p) (h2 : row.msg ≠ .cancelStage i) (h3 : ∀ a b, row.msg ≠ .jumpToStage a b) :
+    ∀ e ∈ (handle c s row).1.flatten, KeepsSuspended s i e := by
+  intro e he new hnew hsusp
+  subst hnew
+  unfold handle at he
+  cases hm : row.msg with
+  | startWorkflow =>
+    simp only [hm, hStartWorkflow] at he
+    (repeat' split at he) <;> simp at he
+  | startStage j r =>
+    simp only [hm, hStartStage, startIfReady] at he
+    (repeat' split at he) <;> simp at he
+    all_goals (try (rcases he with he | he))
+    all_goals (try (obtain ⟨rfl, rfl⟩ := he))
+    all_goals simp_all
+  | startTask j t =>
+    simp only [hm, hStartTask] at he
+    (repeat' split at he) <;> simp at he
+    obtain ⟨rfl, rfl⟩ := he
+    exact hsusp
+  | runTask j t =>
+    simp only [hm, hRunTask] at he
+    (repeat' split at he) <;> simp at he
+    all_goals (try (obtain ⟨rfl, rfl⟩ := he; exact hsusp))
+    rename_i oc _
+    unfold processResult at he
+    cases oc <;> simp at he
+    all_goals (try (obtain ⟨rfl, rfl⟩ := he; exact hsusp))
+    all_goals (try ((repeat' split at he) <;> simp at he))
+    all_goals (try (obtain ⟨rfl, rfl⟩ := he))
+    all_goals simp_all
+  | completeTask j t st =>
+    simp only [hm, hCompleteTask] at he
+    (repeat' split at he) <;> simp at he
+    all_goals (obtain ⟨rfl, rfl⟩ := he; exact hsusp)
+  | completeStage j =>
+    simp only [hm, hCompleteStage] at he
+    (repeat' split at he) <;> simp at he
+    all_goals (try (obtain ⟨rfl, rfl⟩ := he))
+    all_goals (try simp_all)
+    all_goals (
+      rcases he with ⟨l, hl, hmem⟩ | ⟨rfl, _⟩
+      · have := joinTracking_preserving c s j (.setStage i new) (List.mem_flatten.mpr ⟨l, hl, hmem⟩)
+        exact this.1.trans hsusp
+      · simp_all)
+  | skipStage j =>
+    simp only [hm, hSkipStage] at he
+    (repeat' split at he) <;> simp at he
+    all_goals (try (rcases he with he | he))
+    all_goals (try (obtain ⟨rfl, rfl⟩ := he))
+    all_goals simp_all
+  | cancelStage j =>
+    simp only [hm, hCancelStage] at he
+    (repeat' split at he) <;> simp at he
+    obtain ⟨rfl, rfl⟩ := he
+    exact absurd hm h2
+  | completeWorkflow r =>
+    simp only [hm, hCompleteWorkflow] at he
+    (repeat' split at he) <;> simp at he
+  | cancelWorkflow =>
+    simp only [hm, hCancelWorkflow] at he
+    (repeat' split at he) <;> simp at he
+  | jumpToStage a b => exact absurd hm (h3 a b)
+  | signalStage j p =>
+    simp only [hm, hSignalStage] at he
+    (repeat' split at he) <;> simp at he
+    all_goals (obtain ⟨rfl, rfl⟩ := he)
+    all_goals (first | exact absurd hm (h1 p) | simp_all)
+
 end Stab.Props.C18
